@@ -579,7 +579,7 @@ def run(ctx):
     binary = vf.build("c13_json", "asan", ASAN_FLAGS)
     if thorough:
         vf.build("c13_json", "fuzz", FUZZ_FLAGS)
-    scale = int(os.environ.get("VF_THOROUGH_SCALE", "100")) if thorough else 1      # thorough = quick counts x100 (+ libFuzzer)
+    scale = int(os.environ.get("VF_THOROUGH_SCALE", "20")) if thorough else 1      # thorough = quick counts x20 by default (x100 measured at 60-70 min on the shared machine; VF_THOROUGH_SCALE overrides) + libFuzzer
     n_texts, n_values, n_mut, n_store = 20000 * scale, 20000 * scale, 50000 * scale, 400 * (10 if thorough else 1)
     per = 5000 if not thorough else 20000
     jobs = []
